@@ -26,6 +26,8 @@ func createIOFunctions() {
 				s.Term.Suspend()
 				//nolint:fatcontext // we do need to update/reset the context and its cancel function.
 				s.Context, s.Cancel = context.WithCancel(context.Background()) // no timeout.
+				// on every way out, including a read error.
+				defer func() { s.Context, s.Cancel = s.Term.Resume(context.Background()) }()
 			}
 			var linebuf strings.Builder
 			// reading one byte at a time is pretty inefficient, but necessary because of the terminal raw mode switch/switchback.
@@ -45,9 +47,6 @@ func createIOFunctions() {
 				if err != nil {
 					return s.Error(err)
 				}
-			}
-			if s.Term != nil {
-				s.Context, s.Cancel = s.Term.Resume(context.Background())
 			}
 			return object.String{Value: linebuf.String()}
 		},
